@@ -1,10 +1,15 @@
 mod common;
+mod corpus;
 mod exp;
 mod h_c01;
+mod h_content;
 mod h_run;
 mod h_timeline;
 mod hist;
 mod p_adaptive;
+mod q_page;
+mod q_recall;
+mod q_valid;
 mod p_chunk;
 mod p_codec;
 mod p_pii;
@@ -46,7 +51,12 @@ fn main() {
         "C01" => h_c01::run_c01(tier, replay),
         "C05" => s_wal::run(tier, replay),
         "C06" => h_c01::run_c06(tier, replay),
+        "C07" => h_content::run(tier, replay),
+        "C09" => q_recall::run_c09(tier, replay),
+        "C10" => q_valid::run(tier, replay),
+        "C11" => q_recall::run_c11(tier, replay),
         "C15" => h_timeline::run(tier, replay),
+        "C16" => q_page::run(tier, replay),
         "C19" => h_c01::run_c19(tier, replay),
         "C24" => h_c01::run_c24(tier, replay),
         "C26" => h_c01::run_c26(tier, replay),
@@ -70,6 +80,8 @@ fn worker(kind: &str) {
     match kind {
         "c32" => p_query::worker(),
         "hist" => hist::worker(),
+        "corpus" => corpus::worker(),
+        "c07" => h_content::worker(),
         "c15" => h_timeline::worker(),
         other => common::die(&format!("unknown worker kind {other}")),
     }
